@@ -24,14 +24,26 @@ CHECKS = {
                 text='Generated headers of all levels (field extremes, every subset of the ten extended-header types up to a bound in every order, level-0 areas, symlinks, quirks) are parsed by the real reader and every returned field, the first data bytes and the following member are compared with the model.',
                 note='Trusts vlib/lhamodel/header.py as the reading of the format (validated against lhasa and, through lhasa, the recorded corpus). NUL-free names only.',
                 design='4/C05'),
+    'C06': dict(level='exploration', technique='runtime differential monitor on the filesystem: real tool run as an unprivileged user under an LD_PRELOAD fs guard, resulting tree walked and compared with an executable tree model; library policies through the reader harness',
+                text='Generated trees (nested and read-only directories with children, every method, empty files, safe/dangerous links, MacLHA members with valid and near-miss MacBinary envelopes, levels 0-3) are archived directory-first and extracted with the option sets x/e/f/q0-2/v/i/w=, wildcard lists, print, and overwrite policies with scripted prompt answers; contents, permission bits, mtimes, link targets, stdout of p and exit status are compared with the model.',
+                note='Ownership unobservable as nobody; set-id bits are left to OS policy; dangerous links and the mtime of their directories are outside the guarantee (existence is demanded only when the directory is still writable).',
+                design='4/C06'),
     'C07': dict(level='exploration', technique='runtime monitor of the verdict iff: bytes actually delivered + independent bitwise CRC vs verdicts of check/extract/CLI, over corrupted/truncated variants; exhaustive burst enumeration on a stored member',
                 text='Three independent readers per archive variant (read, check, extract) plus lha t / lha x: the verdict must equal (length and CRC-16 of the delivered bytes match the recorded ones). All bursts of span <= 16 bits at every bit offset of a stored member are enumerated in the thorough tier.',
                 note='Bursts are measured in the bit order CRC-16/ARC consumes (LSB first per byte). MacBinary members excluded.',
                 design='4/C07'),
+    'C08': dict(level='exploration', technique='sanitizers (ASan + memory-access UBSan subset, fatal) and invariant hooks on hostile archives through seeded reader-API call patterns over five stream kinds, and through the ASan-built CLI under an fs guard',
+                text='Random bytes behind planted signatures, mutated corpus/generated archives and structure-aware hostile headers (length fields at and around their limits with checksums repaired, truncated level-0 areas, MacBinary look-ahead) are driven through next/read/read-to-end/check/extract patterns and 13 CLI modes; any sanitizer report, hook violation or death by signal is a violation.',
+                note='A clean run is not memory safety; only executed paths are observed. Non-memory UB (shift in decode_ftime) is outside the property and not fatal.',
+                design='4/C08'),
     'C09': dict(level='exploration', technique='sanitizers (ASan + bounds-UBSan) on hostile compressed data, split-allocation driver of the per-type callbacks, invariant hooks on trees/table indices',
                 text='Each decoder is fed constant fills, random bytes, corrupted valid streams (flips inside table regions), structure-aware hostile tables and exhaustive small header grids, in direct-callback mode (state and output in separate exact-size blocks) and through lha_decoder_read with exact-size buffers; hooks catch far/intra-object indexing ASan cannot.',
                 note='A clean run is not memory safety; heap-layout dependent and intra-object errors outside array-typed indexing/hooks can escape.',
                 design='4/C09'),
+    'C10': dict(level='exploration', technique='online filesystem-operation monitor (LD_PRELOAD interposer resolving every path at call time, denying escapes) with a prefix-by-prefix trace checker; independent canary-tree snapshot oracle',
+                text='All sequences of length <= 2 (thorough: sampled 3) over 25 hostile entry kinds plus random longer sequences, pre-existing symlinks at final components and mutated corpus archives are extracted by the real tool as an unprivileged user; each mutating operation must resolve inside the root, nothing but symlink creation may follow the first dangerous link, read-only commands must not mutate, and a canary tree beside the root must be unchanged.',
+                note='Only libc-mediated operations of the dynamically linked tool are seen by the shim (canary is the second oracle). No pre-existing symlinks to directories on a path (stated precondition).',
+                design='4/C10'),
     'C11': dict(level='exploration', technique='exhaustive in-process enumeration of hostile name/path strings through every header channel, predicate monitor on returned path/filename, ASan build',
                 text='All strings over {., /, \\, 0xFF, NUL, letter} up to length 5 (quick) / 7 (thorough) are fed through 13+ header channels and 5 OS types (tens of millions of parses); the 10-line invariant is evaluated on what lha_reader_next_file returns.',
                 note='Exhaustive only up to the length bound and over that alphabet; longer strings sampled.',
@@ -60,6 +72,14 @@ CHECKS = {
                 text='Every (16-bit state, byte) pair is executed through lha_crc16_buf and compared with the bitwise definition (exhaustive, 2^24); thorough also runs all 2^32 (state, two-byte) inputs whole and split. Because CRC is a byte-wise state machine, agreement on every single step plus split-invariance on sampled buffers is the strongest observation a run can make of this routine.',
                 note='Trusts the 8-line bitwise reference (cross-checked in C and Python against the published check value 0xBB3D). Buffers longer than 2 bytes are sampled, not enumerated.',
                 design='4/C17'),
+    'C18': dict(level='exploration', technique='output-byte monitor over stdout+stderr of the real tool, with every byte value planted in every archive-derived text field (exhaustive single-byte plants)',
+                text='Every byte 0x01..0xFF is planted in names, paths, link targets, user/group strings and the method field (first and later members) across levels; each archive is run through list/test/extract/dry-run/print modes and error paths; every output byte must be printable ASCII, LF, CR or TAB.',
+                note='File data dumped by p is excluded as the property says (archives with planted method bytes are not judged in p mode).',
+                design='4/C18'),
+    'C19': dict(level='exploration', technique='runtime differential monitor: stdout of l/lv/v/vv vs a list renderer that is itself validated against 708 recorded listings of the real Unix LHA tool',
+                text='Archives of generated headers (all 2^9 Unix permission words x file/dir/link, all OS-9 bytes, every OS type, timestamp and size extremes, float32 ratio boundaries, name widths, random ext-header mixes) are listed with quiet levels and wildcard lists under fixed TZ/now/mtime; output must equal the reference rendering byte for byte.',
+                note='Totals are kept below 2^32. The renderer is an independent model checked against ground truth recorded in the repository.',
+                design='4/C19'),
     'C20': dict(level='fault_enumeration', technique='allocator monitor (link-time wrap) with exhaustive fail-the-k-th-allocation enumeration, descriptor balance, ASan; histories truncated at every prefix',
                 text='For every (archive, call history) the fault-free run counts the N allocations made by library code and the run is repeated N times with the k-th allocation failing; after reader and stream are freed no library block or descriptor may remain and the call struck by the failure must report failure/end of archive.',
                 note='Only allocations made by lhasa code are injected/monitored; libc-internal ones are covered by descriptor balance and ASan.',
